@@ -170,7 +170,15 @@ func c05DoOp(w *World, sp *c05Spec, set *pongo2.TemplateSet, shared *pongo2.Temp
 	case "cache-exec":
 		tpl, err = set.FromCache(sp.Prog.Main)
 	case "string-exec":
-		tpl, err = set.FromString(sp.Prog.Files[sp.Prog.Main])
+		if op.Ctx%2 == 0 {
+			tpl, err = set.FromString(sp.Prog.Files[sp.Prog.Main])
+		} else {
+			buf := []byte(sp.Prog.Files[sp.Prog.Main])
+			tpl, err = set.FromBytes(buf)
+			if !ownCache {
+				reuseBuffer(buf) // (the solo reference's caller does not: an engine that keeps the memory diverges)
+			}
+		}
 	case "file-exec":
 		tpl, err = set.FromFile(sp.Prog.Main)
 	}
